@@ -829,6 +829,163 @@ func runC04(c *core.Ctx) core.Meta {
 		})
 	}
 
+	// ---------------- R04.8 register families are reachable completely ----------------
+	st8 := c.Rule("R04.8", "an arm of getOperand that maps a range of operand codes onto consecutive register constants (BASE + RegType(num - LO)) covers as many codes as the register family of BASE has members (constants declared consecutively with the same name stem): a family member that no operand code produces makes well-formed encodings that name it undecodable", 1)
+	if fd := findFuncDecl(c.Pkg(instsPkg), "getOperand"); fd != nil {
+		pk := c.Pkg(instsPkg)
+		stem := func(n string) string { return strings.TrimRight(n, "0123456789") }
+		ast.Inspect(fd.Body, func(n ast.Node) bool {
+			cc, ok := n.(*ast.CaseClause)
+			if !ok || len(cc.Body) == 0 {
+				return true
+			}
+			ret, ok := cc.Body[len(cc.Body)-1].(*ast.ReturnStmt)
+			if !ok || len(ret.Results) != 2 {
+				return true
+			}
+			call, ok := ret.Results[0].(*ast.CallExpr)
+			if !ok || len(call.Args) < 2 {
+				return true
+			}
+			be, ok := call.Args[1].(*ast.BinaryExpr)
+			if !ok || be.Op != token.ADD {
+				return true
+			}
+			baseID, ok := be.X.(*ast.Ident)
+			if !ok {
+				return true
+			}
+			baseObj, ok := pk.TypesInfo.Uses[baseID].(*types.Const)
+			if !ok {
+				return true
+			}
+			bv, _ := constant.Int64Val(baseObj.Val())
+			// family: constants of the same type with consecutive values and the same stem
+			fam := 0
+			for v := bv; ; v++ {
+				found := false
+				for _, name := range pk.Types.Scope().Names() {
+					if k, ok := pk.Types.Scope().Lookup(name).(*types.Const); ok && types.Identical(k.Type(), baseObj.Type()) && stem(name) == stem(baseObj.Name()) {
+						if kv, _ := constant.Int64Val(k.Val()); kv == v {
+							found = true
+						}
+					}
+				}
+				if !found {
+					break
+				}
+				fam++
+			}
+			// codes matched by this arm
+			codes := 0
+			for num := int64(0); num < 1024; num++ {
+				for _, e := range cc.List {
+					if v, ok := evalNumCond(c, e, num); ok && v {
+						codes++
+						break
+					}
+				}
+			}
+			st8.Instances++
+			okF := codes == fam
+			st8.Ob(okF)
+			st8.Sample("getOperand: %d operand codes map onto the %d-member register family %s*", codes, fam, stem(baseObj.Name()))
+			if !okF {
+				c.Report(core.Finding{Rule: "R04.8", Pkg: instsPkg, Func: "getOperand", Detail: "family:" + stem(baseObj.Name()), Pos: c.Position(cc.Pos()),
+					Msg: fmt.Sprintf("the arm mapping operand codes onto %s + (num - LO) matches %d codes, the register family %s* has %d members: the remaining register(s) cannot be named by any operand code and encodings that use them are reported as undecodable", baseObj.Name(), codes, stem(baseObj.Name()), fam)})
+			}
+			return true
+		})
+	}
+
+	// ---------------- R04.9 mnemonics that carry a literal are sized accordingly ----------------
+	st9 := c.Rule("R04.9", "every decode-table row whose mnemonic says that a 32-bit constant follows the instruction word (…_imm32_…, v_madmk / v_madak / v_fmamk / v_fmaak) has, in its format's decoder, a `ByteSize += 4` step that is reached only for that opcode; otherwise the instruction is reported four bytes short and the following one is decoded from the middle of the literal", 3)
+	litName := regexp.MustCompile(`imm32|madmk|madak|fmamk|fmaak`)
+	for _, r := range t.Rows {
+		if !litName.MatchString(r.Name) || strings.HasPrefix(r.Format, "VOP3") {
+			continue
+		}
+		fn := c.SSAFunc(instsPkg, "Disassembler.decode"+r.Format)
+		if fn == nil {
+			continue
+		}
+		st9.Instances++
+		g := core.BuildGraph(fn, 0, nil)
+		opc := r.Opcode
+		opcodeTest := func(only int64) EdgeCut {
+			return CmpCut(func(_ *core.Node, op token.Token, x, y ssa.Value) int {
+				f := core.LoadedField(core.StripConv(x))
+				if f == nil || f.Name() != "Opcode" {
+					return 0
+				}
+				k, isC := core.ConstInt(y)
+				if !isC || (only >= 0 && k != only) {
+					return 0
+				}
+				switch op {
+				case token.EQL:
+					return 1
+				case token.NEQ:
+					return -1
+				}
+				return 0
+			})
+		}
+		anyOpcode, thisOpcode := opcodeTest(-1), opcodeTest(opc)
+		found := false
+		for _, n := range g.Nodes {
+			st, ok := storeToField(n.Instr, "Inst.ByteSize")
+			if !ok || !strings.HasSuffix(prov.Of(st.Val), ".ByteSize+4)") {
+				continue
+			}
+			// opcode specific (unreachable once every `opcode == const` edge is removed) ...
+			if !g.Guarded(n, anyOpcode) {
+				continue
+			}
+			// ... and reached from the edge on which the opcode is this row's
+			for _, m := range g.Nodes {
+				if _, isIf := m.Instr.(*ssa.If); !isIf {
+					continue
+				}
+				for i := range m.Succs {
+					if thisOpcode(m, i) {
+						if after, _ := g.Reach([]core.State{{N: m.Succs[i]}}, core.WalkOpts{ForwardOnly: true}); after[n] {
+							found = true
+						}
+					}
+				}
+			}
+		}
+		st9.Ob(found)
+		st9.Sample("%s (%s opcode %d): literal accounted for in decode%s: %v", r.Name, r.Format, r.Opcode, r.Format, found)
+		if !found {
+			c.Report(core.Finding{Rule: "R04.9", Pkg: instsPkg, Func: "Disassembler.decode" + r.Format, Detail: "literal-mnemonic:" + r.Name, Pos: c.Position(r.Pos),
+				Msg: fmt.Sprintf("%s (%s opcode %d) carries a 32-bit constant after the instruction word, but decode%s has no size step for that opcode: the instruction is reported 4 bytes long and the next one is decoded from the literal", r.Name, r.Format, r.Opcode, r.Format)})
+		}
+	}
+
+	// ---------------- R04.10 the single-bit helper ----------------
+	st10 := c.Rule("R04.10", "extractBit(word, k) yields bit k of the word: (word >> k) & 1, or word & (1 << k)", 1)
+	if fn := c.MustFunc("R04.10", instsPkg, "extractBit"); fn != nil {
+		lp := core.NewLocalProv(c)
+		for _, b := range fn.Blocks {
+			for _, in := range b.Instrs {
+				ret, ok := in.(*ssa.Return)
+				if !ok || len(ret.Results) != 1 {
+					continue
+				}
+				st10.Instances++
+				pv := lp.Of(core.StripConv(ret.Results[0]))
+				okB := pv == "((param:number>>param:bitPosition)&1)" || pv == "(param:number&(1<<param:bitPosition))" || pv == "((1<<param:bitPosition)&param:number)"
+				st10.Ob(okB)
+				st10.Sample("extractBit returns %s", pv)
+				if !okB {
+					c.ReportAt("R04.10", fn, in.Pos(), "extractBit:shape", "extractBit returns "+pv+", which is not bit `bitPosition` of the word: every single-bit modifier decoded with it (the GDS flag of DS instructions) is taken from other bits")
+				}
+			}
+		}
+	}
+
 	// ---------------- R04.6 callers use the error path ----------------
 	st6 := c.Rule("R04.6", "every caller of Disassembler.Decode uses the decoded instruction only on paths on which the returned error was found nil", 3)
 	for _, rel := range []string{instsPkg, "amd/emu", "amd/timing/cu"} {
